@@ -17,6 +17,7 @@ import (
 	"sort"
 	"strconv"
 	"strings"
+	"sync"
 	"testing"
 	"time"
 
@@ -29,11 +30,14 @@ import (
 func TestVerifC13(t *testing.T) {
 	logx.Disable()
 	secs := verifh.Sections(func(r *verifh.Rng) []verifh.Section {
-		return append(VerifC13Gen(r, 120, 2000, 0), c13MultiGen(r)...)
+		return append(append(VerifC13Gen(r, 120, 2000, 0), c13MultiGen(r)...), c13LsnGen(r)...)
 	})
 	verifh.Run(t, secs, func(cfg verifh.Cfg) (func(op []string) string, func()) {
 		if cfg.Str("h", "") == "multi" {
 			return c13MultiStart(cfg)
+		}
+		if cfg.Str("h", "") == "lsn" {
+			return c13LsnStart(cfg)
 		}
 		ses := VerifNewSession()
 		var opts []SubOption
@@ -513,6 +517,188 @@ func c13MultiStart(cfg verifh.Cfg) (func(op []string) string, func()) {
 		}
 		if xsub != nil {
 			xsub.Close()
+		}
+	}
+}
+
+// ---------------------------------------------------------------------------------------------
+// Sections `h=lsn n=<3..4>`: n subscribers on ONE key (one watcher, n listeners in the order they subscribed).
+//   put <k> <v> | del <k> | batch p:<k>:<v> d:<k> …      a watch response
+//   closein <i> <j> p:<k>:<v> d:<k> …    during the delivery of the response, listener <j>'s callback (its first call)
+//                                        closes subscriber <i> (Subscriber.Close -> Registry.Unmonitor), from inside
+//   closegate <i> <j> p:<k>:<v> …        the same, but another goroutine closes <i> while <j>'s callback is held at a gate
+//   close <i>                            between two responses
+// Observation: for every subscriber that is open after the operation `<s>.values=<ids> <s>.n=<callbacks during the op>`.
+
+func c13LsnGen(r *verifh.Rng) []verifh.Section {
+	var secs []verifh.Section
+	nsec := verifh.Scale(24, 400)
+	for i := 0; i < nsec; i++ {
+		n := r.Range(3, 4)
+		nk, nv := r.Range(2, 4), r.Range(2, 4)
+		open := make([]bool, n)
+		for s := range open {
+			open[s] = true
+		}
+		evs := func(m int) string {
+			var toks []string
+			for ; m > 0; m-- {
+				if r.Chance(2, 3) {
+					toks = append(toks, fmt.Sprintf("p:%d:%d", r.Intn(nk), r.Intn(nv)))
+				} else {
+					toks = append(toks, fmt.Sprintf("d:%d", r.Intn(nk)))
+				}
+			}
+			return strings.Join(toks, " ")
+		}
+		live := func() []int {
+			var ids []int
+			for s, o := range open {
+				if o {
+					ids = append(ids, s)
+				}
+			}
+			return ids
+		}
+		ops := []string{"batch " + evs(r.Range(1, 3))}
+		// every section closes one subscriber during a delivery: the pair (closed, closing) walks through all combinations
+		ids := live()
+		ci, cj := ids[(i/len(ids))%len(ids)], ids[i%len(ids)]
+		kind := "closein"
+		if i%3 == 2 && ci != cj {
+			kind = "closegate"
+		}
+		ops = append(ops, fmt.Sprintf("%s %d %d %s", kind, ci, cj, evs(r.Range(1, 3))))
+		open[ci] = false
+		for j := r.Range(2, 5); j > 0; j-- {
+			switch x := r.Intn(10); {
+			case x < 4:
+				ops = append(ops, fmt.Sprintf("put %d %d", r.Intn(nk), r.Intn(nv)))
+			case x < 6:
+				ops = append(ops, fmt.Sprintf("del %d", r.Intn(nk)))
+			case x < 8:
+				ops = append(ops, "batch "+evs(r.Range(2, 3)))
+			case x < 9 && len(live()) > 2:
+				ids := live()
+				a, b := ids[r.Intn(len(ids))], ids[r.Intn(len(ids))]
+				ops = append(ops, fmt.Sprintf("closein %d %d %s", a, b, evs(r.Range(1, 2))))
+				open[a] = false
+			default:
+				if ids := live(); len(ids) > 1 {
+					a := ids[r.Intn(len(ids))]
+					ops = append(ops, fmt.Sprintf("close %d", a))
+					open[a] = false
+				}
+			}
+		}
+		secs = append(secs, verifh.Section{Cfg: fmt.Sprintf("h=lsn n=%d", n), Ops: ops})
+	}
+	return secs
+}
+
+var c13LsnSeq int
+
+func c13LsnStart(cfg verifh.Cfg) (func(op []string) string, func()) {
+	e := VerifInstallEtcd()
+	e.DropWatches()
+	c13LsnSeq++
+	endpoints := []string{fmt.Sprintf("etcd-verif-lsn-%d:2379", c13LsnSeq)}
+	key := fmt.Sprintf("verif.lsn.%d", c13LsnSeq)
+	e.SetSnapshot(key+"/", nil)
+	n := cfg.Int("n", 3)
+	subs := make([]*Subscriber, n)
+	open := make([]bool, n)
+	cnt := make([]int, n)
+	// armed: the next callback of listener `by` closes subscriber `victim` (inside: on the delivering goroutine; else on
+	// another goroutine while the callback waits)
+	victim, by, inside := -1, -1, true
+	var mu sync.Mutex
+	for i := 0; i < n; i++ {
+		i := i
+		sub, err := NewSubscriber(endpoints, key)
+		if err != nil {
+			panic(err)
+		}
+		subs[i], open[i] = sub, true
+		sub.AddListener(func() {
+			mu.Lock()
+			cnt[i]++
+			v := -1
+			if by == i && victim >= 0 {
+				v, victim, by = victim, -1, -1
+			}
+			in := inside
+			mu.Unlock()
+			if v >= 0 {
+				if in {
+					subs[v].Close()
+				} else {
+					done := make(chan struct{})
+					go func() {
+						subs[v].Close()
+						close(done)
+					}()
+					<-done
+				}
+			}
+		})
+	}
+	prefix := e.AwaitWatchOf(key + "/")
+	step := func(op []string) string {
+		deliver := func(toks []string) {
+			var evs []*clientv3.Event
+			for _, t := range toks {
+				evs = append(evs, verifEvent(key, t))
+			}
+			e.Push(prefix, clientv3.WatchResponse{Events: evs})
+			e.Sync(prefix)
+		}
+		switch op[0] {
+		case "put":
+			deliver([]string{"p:" + op[1] + ":" + op[2]})
+		case "del":
+			deliver([]string{"d:" + op[1]})
+		case "batch":
+			deliver(op[1:])
+		case "closein", "closegate":
+			i, j := verifh.Atoi(op[1]), verifh.Atoi(op[2])
+			if i < 0 || i >= n || j < 0 || j >= n || !open[i] || !open[j] || len(op) < 4 {
+				return "bad-op"
+			}
+			mu.Lock()
+			victim, by, inside = i, j, op[0] == "closein"
+			mu.Unlock()
+			deliver(op[3:])
+			open[i] = false
+		case "close":
+			i := verifh.Atoi(op[1])
+			if i < 0 || i >= n || !open[i] {
+				return "bad-op"
+			}
+			subs[i].Close()
+			open[i] = false
+		default:
+			return "bad-op"
+		}
+		var out []string
+		mu.Lock()
+		for i := range subs {
+			if open[i] {
+				out = append(out, fmt.Sprintf("%d.values=%s %d.n=%d", i, VerifValIDs(subs[i].Values()), i, cnt[i]))
+			}
+			cnt[i] = 0
+		}
+		mu.Unlock()
+		if len(out) == 0 {
+			return "none=1"
+		}
+		return strings.Join(out, " ")
+	}
+	return step, func() {
+		for i, sub := range subs {
+			if open[i] {
+				sub.Close()
+			}
 		}
 	}
 }
